@@ -89,13 +89,14 @@ pub fn run(tier: Tier) -> i32 {
     let acc = par_for(files.len(), 1, &deadline, |i, acc| {
         let (name, spec) = &files[i];
         match build_file(spec) {
-            Err(e) => acc.violation(vlib::report::Violation {
-                signature: format!("file={name};write"),
-                summary: format!("C03: cannot write file {name}: {e}"),
-                case: json!({"kind": "cursor_history", "file": spec, "ops": []}),
-            }),
+            Err(_) => acc.count("prerequisite_failed_writer_error_(C01)", 1),
             Ok((entries, bytes)) => {
-                let layout = vlib::fmt::decode_file(&bytes, Some(spec.cfg.effective_interval())).ok();
+                let layout = vlib::fmt::decode_file(&bytes, Some(spec.cfg.effective_interval())).ok().filter(|l| l.entries == entries);
+                if layout.is_none() {
+                    // the property quantifies over valid files; an invalid one is C01/C09's business
+                    acc.count("prerequisite_failed_file_not_valid_(C01/C09)", 1);
+                    return;
+                }
                 let multi = layout
                     .as_ref()
                     .map(|l| l.by_depth.iter().enumerate().any(|(d, b)| d >= 1 && d <= l.trailer.levels as usize && b.len() >= 2))
